@@ -217,6 +217,20 @@ def work(item):
                         st.violation(*r)
         return st
 
+    if part == "elements":
+        # every bare element symbol (the shortest compounds there are), with good and bad densities: structured, not left to chance
+        rng = random.Random(sv)
+        for sym in list(weighable) + ["Rf", "Db"]:
+            for E in (8.0, 10.0 ** rng.uniform(-0.9, 2.9)):
+                r = check_cp(st, env, sym, E, rng.uniform(0, PI), rng.uniform(0, PI))
+                if r:
+                    st.violation(*r)
+                for rho in (0.0, -1.0, rng.uniform(0.1, 20)):
+                    r = check_refr(st, env, sym, E, rho)
+                    if r:
+                        st.violation(*r)
+        return st
+
     def prop_cp(st, name, E, th, ph):
         return check_cp(st, env, name, E, th, ph)
 
@@ -245,6 +259,7 @@ def run(ctx):
     items = []
     for cfg in ("A", "B"):
         items.append((cfg, builds[cfg]["lib"], builds[cfg]["src"], "nist", 0, ctx.seed))
+        items.append((cfg, builds[cfg]["lib"], builds[cfg]["src"], "elements", 0, ctx.seed))
         for p in range(parts):
             items.append((cfg, builds[cfg]["lib"], builds[cfg]["src"], p, n, ctx.seed))
     ctx.stats.merge(common.pmap(work, items))
